@@ -115,6 +115,7 @@ type ChanObj struct {
 	Timer   bool // created by time.After / ticker
 	TimerD  *Term
 	Fired   bool
+	Ready   bool // one-shot readiness granted by FireTimers
 	Label   string
 	Waiters int
 }
